@@ -20,7 +20,7 @@ RULE = (
     "with the array and mask COMPUTED INSIDE the same jitted, vmap_1d(productmap(...)) computation from generated "
     "smooth expressions (the situation in the simulation): index in range, unmasked, a[idx] >= max - 1e-12*scale, "
     "returned max == max (1e-12). (c) segment_argmax(data, sorted non-empty segments) rank 1-3, eager/jit and "
-    "fused: the returned row lies in the segment and attains the segment maximum. (d) "
+    "fused: the returned row lies in the segment and attains the segment maximum (1 case in 4 contains segments that are -inf throughout). (d) "
     "get_solve_discrete_problem(NONE) on generated variable_info frames: equals the brute-force maximum over all "
     "discrete choice combinations (dense axes + segment rows) of each state. Non-trivial: (a) mask has both values "
     "and there are >=2 ties at the maximum; (b) maximiser is not flat position 0 and the mask has both values; "
@@ -101,8 +101,12 @@ def case_c(draw):
     trailing = [draw(st.integers(1, 3)) for _ in range(draw(st.integers(0, 2)))]
     n = rows * int(np.prod(trailing)) if trailing else rows
     vals = values(draw, n)
+    # 1 case in 4: whole segments (at every or at one trailing position) consist of -inf only
+    # (a state without any feasible row); any row of such a segment attains its maximum
+    inf_segs = draw(st.lists(st.integers(0, nseg - 1), min_size=1, max_size=2, unique=True)) if draw(st.integers(0, 3)) == 0 else []
     return {"kind": "c", "sizes": sizes, "trailing": trailing, "vals": vals,
-            "mode": draw(st.sampled_from(["eager", "jit", "fused"]))}
+            "mode": draw(st.sampled_from(["eager", "jit", "fused"])),
+            "inf_segs": inf_segs, "inf_one_position": draw(st.booleans())}
 
 
 @st.composite
@@ -258,6 +262,10 @@ def check_c(case):
     data = np.asarray(case["vals"], dtype=float).reshape(shape)
     ids = np.repeat(np.arange(len(sizes)), sizes)
     nseg = len(sizes)
+    if case.get("inf_segs") and case["mode"] != "fused":
+        for sg in case["inf_segs"]:
+            sel = (ids == sg,) + ((0,) * len(case["trailing"]) if case.get("inf_one_position") and case["trailing"] else ())
+            data[sel] = -np.inf
     if case["mode"] == "eager":
         out = call_lcm(segment_argmax, jnp.asarray(data), jnp.asarray(ids), nseg)
         dd = data
@@ -288,9 +296,14 @@ def check_c(case):
             sc = max(1.0, abs(emax))
             if not (start <= r < start + n):
                 msgs.append(f"segment {s} pos {pos}: returned row {r} outside the segment rows [{start},{start + n})")
+            elif np.isneginf(emax):
+                pass  # every row of the segment attains the maximum -inf
             elif not dd[(r, *pos)] >= emax - tol * sc:
                 msgs.append(f"segment {s} pos {pos}: row {r} has {dd[(r, *pos)]!r} < segment max {emax!r}")
-            if not abs(mx[(s, *pos)] - emax) <= tol * sc:
+            if np.isneginf(emax):
+                if not np.isneginf(mx[(s, *pos)]):
+                    msgs.append(f"segment {s} pos {pos}: returned max {mx[(s, *pos)]!r} != -inf")
+            elif not abs(mx[(s, *pos)] - emax) <= tol * sc:
                 msgs.append(f"segment {s} pos {pos}: returned max {mx[(s, *pos)]!r} != {emax!r}")
         start += n
     nt = sum(1 for n in sizes if n >= 2) >= 2
